@@ -334,14 +334,23 @@ fn c17_results(case_kind: u64, rng: &mut Rng, idx: u64) -> Vec<(&'static str, St
             };
             out.push(("fast_gnp_random_graph", canon, desc));
         }
-        1 | 2 | 3 => {
+        1 | 2 | 3 | 6 | 7 => {
             // seeded Louvain on tie-rich graphs; the graph is rebuilt, so every hash table is re-keyed
-            let case = tie_rich_case(rng, idx);
+            let case = if case_kind >= 6 {
+                // small graphs with arbitrary real weights: gains that are zero up to rounding make
+                // the result depend on the order in which floating-point sums are taken
+                let kinds = kinds8();
+                let fam: &'static str = *rng.pick(&["gnp_mid", "gnp_dense", "complete", "cycle", "gnp_sparse"]);
+                gen_case(*rng.pick(&kinds), fam, rng.range(3, 8), WClass::Generic, &GenOpts { self_loops: rng.coin(), parallel: rng.coin(), shuffle_edges: true }, rng)
+            } else {
+                tie_rich_case(rng, idx)
+            };
             if case.edges.is_empty() {
                 return out;
             }
-            let weighted = case.wclass.weighted() && rng.coin();
+            let weighted = case.wclass.weighted() && (case_kind >= 6 || rng.coin());
             let gamma = *rng.pick(&[0.5, 1.0, 1.0, 1.5]);
+            let threshold = *rng.pick(&[None, None, Some(0.0), Some(0.01)]);
             let seed = match rng.below(8) {
                 0 => u64::MAX - rng.below(3) as u64,
                 1 => 1u64 << 63,
@@ -366,14 +375,14 @@ fn c17_results(case_kind: u64, rng: &mut Rng, idx: u64) -> Vec<(&'static str, St
             let g = case.build();
             graphrs::verif_hooks::set_budget("louvain_sweep", Some(200 + 20 * case.n() as u64));
             graphrs::verif_hooks::take_ticks("louvain_sweep");
-            let r = guard("louvain_partitions", || louvain::louvain_partitions(&g, weighted, Some(gamma), None, Some(seed)));
+            let r = guard("louvain_partitions", || louvain::louvain_partitions(&g, weighted, Some(gamma), threshold, Some(seed)));
             let canon = match r {
                 Ok(Ok(l)) => canon_levels(&l),
                 Ok(Err(e)) => format!("error:{}", err_name(&e.kind)),
                 Err(c) => format!("panic:{}", c.class()),
             };
             out.push(("louvain_partitions", canon, desc.clone()));
-            let r2 = guard("louvain_communities", || louvain::louvain_communities(&g, weighted, Some(gamma), None, Some(seed)));
+            let r2 = guard("louvain_communities", || louvain::louvain_communities(&g, weighted, Some(gamma), threshold, Some(seed)));
             let canon2 = match r2 {
                 Ok(Ok(l)) => canon_levels(&[l]),
                 Ok(Err(e)) => format!("error:{}", err_name(&e.kind)),
@@ -443,7 +452,7 @@ fn c17_results(case_kind: u64, rng: &mut Rng, idx: u64) -> Vec<(&'static str, St
 
 pub fn run_c17(a: &Args) {
     let digest_mode = a.extra.iter().any(|e| e == "digest");
-    let total: u64 = if a.thorough { 12_000 } else { 400 };
+    let total: u64 = if a.thorough { 24_000 } else { 1_600 };
     let reps = if digest_mode { 1 } else if a.thorough { 30 } else { 10 };
     let mut digests: BTreeMap<String, Value> = BTreeMap::new();
     // repeated calls also run under caller-installed pools of different sizes
@@ -452,7 +461,7 @@ pub fn run_c17(a: &Args) {
         if !ctx::mine(idx) {
             continue;
         }
-        let case_kind = idx % 6;
+        let case_kind = idx % 8;
         let mut first: Option<Vec<(&'static str, String, Value)>> = None;
         let mut distinct: BTreeMap<&'static str, BTreeSet<u64>> = BTreeMap::new();
         for rep in 0..reps {
@@ -502,6 +511,60 @@ pub fn run_c17(a: &Args) {
             ctx::maxf(&format!("max_distinct_results_per_case:{}", f), set.len() as f64);
         }
         ctx::count(&format!("cases:kind{}", case_kind));
+    }
+    // a large sweep of tiny graphs with arbitrary real weights, three calls each: inputs on which
+    // a gain is zero up to rounding are rare (about one in 10^4..10^5) but then the result
+    // depends on the order of floating-point sums in about half of the calls
+    if !digest_mode {
+        let sweep: u64 = if a.thorough { 1_500_000 } else { 150_000 };
+        let kinds = kinds8();
+        for r in 0..sweep {
+            let idx = 10_000_000 + r;
+            if !ctx::mine(idx) {
+                continue;
+            }
+            let mut rng = Rng::new(mix(a.seed ^ 0x5717, idx));
+            let fam: &'static str = *rng.pick(&["gnp_mid", "gnp_dense", "complete", "gnp_sparse", "cycle"]);
+            let case = gen_case(*rng.pick(&kinds), fam, rng.range(3, 7), WClass::Generic, &GenOpts { self_loops: rng.chance(1, 4), parallel: rng.chance(1, 4), shuffle_edges: true }, &mut rng);
+            if case.edges.is_empty() {
+                continue;
+            }
+            let gamma = *rng.pick(&[1.0, 1.0, 0.5, 1.5]);
+            let threshold = *rng.pick(&[None, Some(0.0), Some(0.01)]);
+            let seed = rng.next_u64() % 1000;
+            let mut first: Option<String> = None;
+            for rep in 0..4 {
+                let g = case.build();
+                graphrs::verif_hooks::set_budget("louvain_sweep", Some(400));
+                graphrs::verif_hooks::take_ticks("louvain_sweep");
+                let res = guard("louvain_partitions", || louvain::louvain_partitions(&g, true, Some(gamma), threshold, Some(seed)));
+                graphrs::verif_hooks::set_budget("louvain_sweep", None);
+                ctx::eval(1);
+                let canon = match res {
+                    Ok(Ok(l)) => canon_levels(&l),
+                    Ok(Err(e)) => format!("error:{}", err_name(&e.kind)),
+                    Err(c) => format!("panic:{}", c.class()),
+                };
+                match &first {
+                    None => first = Some(canon),
+                    Some(f0) => {
+                        if *f0 != canon {
+                            ctx::case_desc(json!({"graph": case.json(), "resolution": gamma, "threshold": threshold, "seed": seed}));
+                            ctx::violation(
+                                &format!("C17|louvain_partitions|differs-between-calls|{}", if case.specs.directed { "directed" } else { "undirected" }),
+                                "the same arguments (and seed) gave different partitions on repeated calls in one process",
+                                json!({"graph": case.json(), "resolution": gamma, "threshold": threshold, "seed": seed, "repetition": rep, "first_result": f0, "this_result": canon}),
+                            );
+                            break;
+                        }
+                    }
+                }
+            }
+            if r % 1000 == 0 {
+                ctx::nontrivial(mix(idx, 0x5717));
+            }
+            ctx::count("reach:small-real-weighted-louvain-inputs");
+        }
     }
     if digest_mode {
         ctx::note("digests", json!(digests));
